@@ -416,8 +416,12 @@ func (p *Program) checkSingleWriter(pkg, writer, field, label string) string {
 				switch x := ins.(type) {
 				case ssa.CallInstruction:
 					c := x.Common()
-					if sc := c.StaticCallee(); sc != nil && strings.HasSuffix(sc.String(), "atomic.Value).Store") && len(c.Args) > 0 {
-						addr = c.Args[0]
+					if sc := c.StaticCallee(); sc != nil && len(c.Args) > 0 {
+						n := sc.String()
+						if strings.HasSuffix(n, "atomic.Value).Store") || strings.HasSuffix(n, "sync.Map).Store") ||
+							strings.HasSuffix(n, "sync.Map).LoadOrStore") || strings.HasSuffix(n, "sync.Map).Delete") || strings.HasSuffix(n, "sync.Map).LoadAndDelete") {
+							addr = c.Args[0]
+						}
 					}
 				}
 				fa, ok := addr.(*ssa.FieldAddr)
